@@ -207,8 +207,11 @@ func queueProps(r *Rng, o CfgOpts, leaf bool) map[string]string {
 		p["application.sort.priority"] = []string{"enabled", "disabled"}[r.Intn(2)]
 	}
 	if o.Priorities {
-		if r.Chance(250) {
+		if r.Chance(450) {
 			p["priority.offset"] = strconv.Itoa(r.Range(-3, 3))
+			if r.Chance(150) {
+				p["priority.offset"] = []string{"-2147483648", "-2147483647", "-2000000000", "2147483647", "2000000000", "-5", "7"}[r.Intn(7)]
+			}
 		}
 		if r.Chance(300) {
 			p["priority.policy"] = []string{"default", "fence", "fence"}[r.Intn(3)]
